@@ -16,6 +16,9 @@
 #include <assert.h>
 #define __CPROVER_assert(c, msg) assert((c) && msg)
 #define __CPROVER_assume(c) do { if (!(c)) abort(); } while (0)
+#define VF_DUMMY_INIT = 0
+#else
+#define VF_DUMMY_INIT /* value returned while an exception propagates: never read, left nondeterministic */
 #endif
 
 /* ---- exceptions: one ghost register holding the class of the exception in flight */
